@@ -113,7 +113,13 @@ static struct mtbl_iter *make_iter(const struct mtbl_source *src, char **a, int 
 	if (n == 1 && !strcmp(a[0], "iter")) it = mtbl_source_iter(src);
 	else if (n == 2 && !strcmp(a[0], "get") && !unhex(a[1], &k0, &l0)) it = mtbl_source_get(src, k0, l0);
 	else if (n == 2 && !strcmp(a[0], "pfx") && !unhex(a[1], &k0, &l0)) it = mtbl_source_get_prefix(src, k0, l0);
-	else if (n == 3 && !strcmp(a[0], "range") && !unhex(a[1], &k0, &l0) && !unhex(a[2], &k1, &l1)) it = mtbl_source_get_range(src, k0, l0, k1, l1);
+	else if (n == 3 && !strcmp(a[0], "range") && !unhex(a[1], &k0, &l0) && !unhex(a[2], &k1, &l1)) {
+		/* when one bound is a prefix of the other, both are passed out of ONE buffer (the same pointer with two lengths — the
+		 * usual way to scan from a prefix to prefix + suffix): the bounds are (pointer, length) pairs, not pointers */
+		if (l0 <= l1 && l1 > 0 && !memcmp(k0, k1, l0)) it = mtbl_source_get_range(src, k1, l0, k1, l1);
+		else if (l1 < l0 && !memcmp(k0, k1, l1)) it = mtbl_source_get_range(src, k0, l0, k0, l1);
+		else it = mtbl_source_get_range(src, k0, l0, k1, l1);
+	}
 	/* poison and free the query buffers: the library must have copied what it needs */
 	if (k0) { memset(k0, 0xA5, l0); free(k0); }
 	if (k1) { memset(k1, 0xA5, l1); free(k1); }
@@ -237,16 +243,18 @@ int ops_table(char **args, int na)
 			struct mtbl_reader_options *ro = mtbl_reader_options_init();
 			mtbl_reader_options_set_verify_checksums(ro, verify);
 			mtbl_reader_options_set_madvise_random(ro, (int)kvnum(args + 2, na - 2, "madv", 0));
-			struct mtbl_reader *r;
+			struct mtbl_reader *r; long maps0 = vf_mmap_live;
 			if (byfd) { int fd = open(path, O_RDONLY); r = mtbl_reader_init_fd(fd, ro); close(fd); }
 			else r = mtbl_reader_init(path, ro);
 			int rc = r ? 10 : 11;
 			if (r) mtbl_reader_destroy(&r);
+			if (vf_mmap_live != maps0) rc = 12;      /* the call returned (reader destroyed again, or NULL) and a mapping is left */
 			_exit(rc);
 		}
 		int st = 0; waitpid(pid, &st, 0); unlink(path);
 		if (WIFEXITED(st) && WEXITSTATUS(st) == 10) puts("ok");
 		else if (WIFEXITED(st) && WEXITSTATUS(st) == 11) puts("null");
+		else if (WIFEXITED(st) && WEXITSTATUS(st) == 12) puts("leak");
 		else if (WIFEXITED(st) && WEXITSTATUS(st) == 99) puts("asan");
 		else if (WIFSIGNALED(st) && WTERMSIG(st) == SIGABRT) puts("abort");
 		else if (WIFSIGNALED(st)) printf("crash:%d\n", WTERMSIG(st));
